@@ -109,11 +109,19 @@ func buildInlinedView(repoDir, goarch string, orig *Program) (p *Program, names 
 }
 
 func buildInlinedView1(repoDir, goarch string, orig *Program) (*Program, []string, error) {
-	if len(newHelpers(orig)) == 0 {
-		return nil, nil, nil
-	}
 	overlay := map[string][]byte{}
 	inlined := map[string]bool{}
+	// loops over a literal table of functions (`for _, w := range [...]func(P) error{p.a, p.b} { ... w(x) ... }`)
+	// are written out: one copy of the body per entry, the entry in place of the loop variable
+	for fname, res := range unrollFuncTables(orig) {
+		overlay[fname] = res.content
+		for _, nm := range res.names {
+			inlined[nm] = true
+		}
+	}
+	if len(newHelpers(orig)) == 0 && len(overlay) == 0 {
+		return nil, nil, nil
+	}
 	failed := map[string]bool{}
 	for round := 0; round < 16; round++ {
 		p, err := loadSyntaxOnly(repoDir, goarch, overlay)
@@ -396,4 +404,193 @@ func loadSyntaxOnly(repoDir, goarch string, overlay map[string][]byte) (*Program
 		p.ByPath[pk.PkgPath] = pk
 	}
 	return p, nil
+}
+
+type unrollResult struct {
+	content []byte
+	names   []string
+}
+
+// unrollFuncTables rewrites, in the module's non-vendored packages, every
+//
+//	tbl := [...]F{e1, ..., en}        (or the literal written in the range clause itself)
+//	for _, v := range tbl { BODY }
+//
+// where F is a function type, every ei is an identifier or a selector chain (a function or a method
+// value: evaluating it has no effect), n <= 8, tbl is used nowhere else, and BODY neither assigns v,
+// takes its address, nor contains break / continue / goto / labels, into n copies of BODY with (ei) in
+// place of v. The meaning is unchanged: the entries are evaluated without effect, and the bodies run in
+// the same order with the same values.
+func unrollFuncTables(p *Program) map[string]unrollResult {
+	out := map[string]unrollResult{}
+	for _, pk := range p.Pkgs {
+		if strings.Contains(pk.PkgPath, "/thirdparty/") || strings.Contains(pk.PkgPath, "/example") {
+			continue
+		}
+		for _, file := range pk.Syntax {
+			fname := p.Fset.Position(file.Pos()).Filename
+			src, err := os.ReadFile(fname)
+			if err != nil {
+				continue
+			}
+			off := func(q token.Pos) int { return p.Fset.Position(q).Offset }
+			var edits []textEdit
+			var names []string
+			isFuncTable := func(e ast.Expr) *ast.CompositeLit {
+				cl, ok := ast.Unparen(e).(*ast.CompositeLit)
+				if !ok || len(cl.Elts) == 0 || len(cl.Elts) > 8 {
+					return nil
+				}
+				t := pk.TypesInfo.TypeOf(cl)
+				if t == nil {
+					return nil
+				}
+				var elem types.Type
+				switch u := t.Underlying().(type) {
+				case *types.Array:
+					elem = u.Elem()
+				case *types.Slice:
+					elem = u.Elem()
+				default:
+					return nil
+				}
+				if _, isSig := elem.Underlying().(*types.Signature); !isSig {
+					return nil
+				}
+				for _, el := range cl.Elts {
+					x := ast.Unparen(el)
+					for {
+						if se, isSel := x.(*ast.SelectorExpr); isSel {
+							x = ast.Unparen(se.X)
+							continue
+						}
+						break
+					}
+					if _, isId := x.(*ast.Ident); !isId {
+						return nil
+					}
+				}
+				return cl
+			}
+			var visitList func(fd *ast.FuncDecl, list []ast.Stmt)
+			visitList = func(fd *ast.FuncDecl, list []ast.Stmt) {
+				for i, st := range list {
+					rs, ok := st.(*ast.RangeStmt)
+					if !ok || rs.Tok != token.DEFINE || rs.Value == nil {
+						continue
+					}
+					if k, isId := rs.Key.(*ast.Ident); rs.Key != nil && (!isId || k.Name != "_") {
+						continue
+					}
+					vid, isId := rs.Value.(*ast.Ident)
+					if !isId || vid.Name == "_" {
+						continue
+					}
+					vobj := pk.TypesInfo.Defs[vid]
+					if vobj == nil {
+						continue
+					}
+					cl := isFuncTable(rs.X)
+					var tblAssign *ast.AssignStmt
+					if cl == nil {
+						xid, isX := ast.Unparen(rs.X).(*ast.Ident)
+						if !isX || i == 0 {
+							continue
+						}
+						as, isAs := list[i-1].(*ast.AssignStmt)
+						if !isAs || as.Tok != token.DEFINE || len(as.Lhs) != 1 || len(as.Rhs) != 1 {
+							continue
+						}
+						lid, isL := as.Lhs[0].(*ast.Ident)
+						if !isL || pk.TypesInfo.Defs[lid] == nil || pk.TypesInfo.Uses[xid] != pk.TypesInfo.Defs[lid] {
+							continue
+						}
+						uses := 0
+						for id, o := range pk.TypesInfo.Uses {
+							if o == pk.TypesInfo.Defs[lid] && id.Pos() >= fd.Pos() && id.End() <= fd.End() {
+								uses++
+							}
+						}
+						if uses != 1 {
+							continue
+						}
+						cl = isFuncTable(as.Rhs[0])
+						tblAssign = as
+					}
+					if cl == nil {
+						continue
+					}
+					// the body
+					okBody := true
+					var uses []*ast.Ident
+					ast.Inspect(rs.Body, func(n ast.Node) bool {
+						switch x := n.(type) {
+						case *ast.BranchStmt, *ast.LabeledStmt:
+							okBody = false
+						case *ast.AssignStmt:
+							for _, l := range x.Lhs {
+								if id, isI := ast.Unparen(l).(*ast.Ident); isI && pk.TypesInfo.Uses[id] == vobj {
+									okBody = false
+								}
+							}
+						case *ast.IncDecStmt:
+							if id, isI := ast.Unparen(x.X).(*ast.Ident); isI && pk.TypesInfo.Uses[id] == vobj {
+								okBody = false
+							}
+						case *ast.UnaryExpr:
+							if id, isI := ast.Unparen(x.X).(*ast.Ident); isI && x.Op == token.AND && pk.TypesInfo.Uses[id] == vobj {
+								okBody = false
+							}
+						case *ast.Ident:
+							if pk.TypesInfo.Uses[x] == vobj {
+								uses = append(uses, x)
+							}
+						}
+						return okBody
+					})
+					if !okBody {
+						continue
+					}
+					bFrom, bTo := off(rs.Body.Lbrace)+1, off(rs.Body.Rbrace)
+					var rep strings.Builder
+					for _, el := range cl.Elts {
+						esrc := string(src[off(el.Pos()):off(el.End())])
+						var be []textEdit
+						for _, u := range uses {
+							be = append(be, textEdit{off(u.Pos()) - bFrom, off(u.End()) - bFrom, esrc})
+						}
+						body := applyEdits(append([]byte(nil), src[bFrom:bTo]...), be)
+						rep.WriteString("{\n")
+						rep.Write(body)
+						rep.WriteString("\n}\n")
+					}
+					edits = append(edits, textEdit{off(rs.Pos()), off(rs.End()), rep.String()})
+					if tblAssign != nil {
+						lid := tblAssign.Lhs[0].(*ast.Ident)
+						edits = append(edits, textEdit{off(tblAssign.End()), off(tblAssign.End()), "\n_ = " + lid.Name})
+					}
+					names = append(names, "table loop in "+fd.Name.Name+" written out")
+				}
+			}
+			for _, d := range file.Decls {
+				fd, ok := d.(*ast.FuncDecl)
+				if !ok || fd.Body == nil {
+					continue
+				}
+				ast.Inspect(fd.Body, func(n ast.Node) bool {
+					switch x := n.(type) {
+					case *ast.BlockStmt:
+						visitList(fd, x.List)
+					case *ast.CaseClause:
+						visitList(fd, x.Body)
+					}
+					return true
+				})
+			}
+			if len(edits) > 0 {
+				out[fname] = unrollResult{applyEdits(append([]byte(nil), src...), edits), names}
+			}
+		}
+	}
+	return out
 }
